@@ -5,6 +5,8 @@ import LitexProofs.Stream.Route
 import LitexProofs.Stream.Gearbox
 import LitexModel.Stream.NumG
 import LitexProofs.Stream.Layout
+import LitexProofs.Stream.Stride
+import LitexProofs.Stream.Cast
 /-
   C03 — Stream elements deliver each token exactly once, in order, rightly transformed.
 
@@ -166,6 +168,23 @@ example :
     let ins : List (In (List Nat × Unit)) :=
       [⟨true, ⟨([1, 2], ()), false, false⟩, true⟩, ⟨true, ⟨([3, 4], ()), false, false⟩, true⟩]
     e.delivered e.init ins ≠ (e.accepted e.init ins).flatMap (splitTok 2 0) := by decide
+
+/-- `valid_token_count` of `_DownConverter` / `Converter(report_valid_token_count)` (model `downConvV` = `downConv`
+    with every source token decorated by the count output), every schedule, no producer contract needed: the
+    decorated element accepts and delivers exactly what `downConv` does, and the count is 1 on exactly every
+    `r`-th delivered token (positions `r-1, 2r-1, …`), i.e. on the last lane of each group of `r` — which under
+    the producer contract is the last lane of each accepted wide token (`downConv_token_rel_partial`). -/
+theorem downConv_vtc (r : Nat) (hr : 0 < r) (z : α) (ins : List (In (List α × π))) :
+    let e := downConvV (π := π) r z
+    (e.delivered e.init ins).map (·.data.2) =
+      (List.range (e.delivered e.init ins).length).map (fun p => decide (p % r + 1 = r)) ∧
+    (e.delivered e.init ins).map (mapTok Prod.fst) = (downConv r z).delivered (downConv (π := π) r z).init ins ∧
+    e.accepted e.init ins = (downConv r z).accepted (downConv (π := π) r z).init ins := by
+  have h := rel_run_init (downConvV (π := π) r z) (downVtcRel r)
+    ⟨by simpa [downConvV] using hr, by simp [downConvV], by simp⟩ (downConvV_step r z) ins
+  have hs := sim_strip (downConvV (π := π) r z) (downConv r z) (mapTok Prod.fst)
+    (fun _ _ _ => rfl) (fun _ _ _ _ => rfl) (fun _ _ _ _ => rfl) ins 0
+  exact ⟨h.2.2, hs.2.1, hs.1⟩
 
 /-! ### Gearbox
 
@@ -376,6 +395,132 @@ theorem cast_identity (wsFrom wsTo : List Nat) (hw : sumW wsFrom = sumW wsTo) (x
     castFn false false wsFrom wsTo x = x % 2 ^ sumW wsFrom :=
   castFn_id wsFrom wsTo hw x
 
+/-! ### StrideConverter: the field-wise stride bit map (`strideOut` up, `strideIn` down; both are what the driver
+    and the real code are compared through) -/
+
+/-- The stride map is a bijection between `r` narrow words and the `r·Σw` payload bits of the wide word, for every
+    list of field widths `ws` and every ratio: down-after-up and up-after-down are identities. -/
+theorem stride_map_bijective (ws : List Nat) :
+    (∀ lanes : List Nat, strideIn lanes.length ws (strideOut ws lanes) = lanes.map (· % 2 ^ sumW ws)) ∧
+    (∀ r x : Nat, strideOut ws (strideIn r ws x) = x % 2 ^ (r * sumW ws)) :=
+  ⟨strideIn_strideOut ws, fun r x => strideOut_strideIn r ws x⟩
+
+/-- The map on FIELDS: slice `i` of wide field `k` (at `r·j_k`, `r·w_k` wide) is narrow field `k` (at `j_k`, `w_k`
+    wide) of sub-word `i`. -/
+theorem stride_map_fields (ws : List Nat) (lanes : List Nat) (i : Nat) (hi : i < lanes.length) :
+    (fieldPos ws).map (fun (j, w) => slice (i * w) w (slice (lanes.length * j) (lanes.length * w) (strideOut ws lanes))) =
+    (fieldPos ws).map (fun (j, w) => slice j w (lanes.getD i 0)) :=
+  strideOut_field ws lanes i hi
+
+/-- StrideConverter (up) token relation stated on the FIELDS of the source endpoint, multi-field layouts, params and
+    `reverse` included: the `m`-th delivered word belongs to the `m`-th chunk `c` of the accepted sub-words; its
+    count/first/last/param are the chunk's (`wordOf`), the param field of the encoded source word holds the param of
+    the chunk's last sub-word, and slice `n` (`n = reverse ? r-1-i : i`) of every wide field `k` is field `k` of the
+    chunk's `i`-th sub-word. -/
+theorem strideUp_field_rel (r : Nat) (hr : 0 < r) (pw : Nat) (rev : Bool) (ws : List Nat)
+    (ins : List (In (Nat × Nat))) :
+    let e := strideUp (α := Nat) (π := Nat) r 0 0
+    ∀ (m : Nat) (hm : m < (e.delivered e.init ins).length),
+      ∃ c, (chunks r (e.accepted e.init ins))[m]? = some c ∧
+        wordOf 0 c = upView ((e.delivered e.init ins)[m]) ∧
+        slice (r * sumW ws) pw (encStrideUp r pw rev ws ((e.delivered e.init ins)[m]).data) =
+          ((c.getLast?.map (·.data.2)).getD 0) % 2 ^ pw ∧
+        ∀ (i : Nat) (hi : i < c.length),
+          (fieldPos ws).map (fun (j, w) => slice ((if rev then r - 1 - i else i) * w) w
+              (slice (r * j) (r * w) (encStrideUp r pw rev ws ((e.delivered e.init ins)[m]).data))) =
+            (fieldPos ws).map (fun (j, w) => slice j w (c[i].data.1)) := by
+  intro e m hm
+  obtain ⟨hA, hD, _⟩ := strideUp_sim (α := Nat) (π := Nat) r 0 0 ins
+  have hrel := upConv_token_rel (α := Nat) (π := Nat) r hr 0 0 ins
+  have hlen := (rel_run_init (upConv (α := Nat) (π := Nat) r 0 0) (upLenRel r) ⟨by simp [upConv], by simp⟩
+    (upConv_len_step r 0 0) ins).2
+  simp only at hrel
+  rw [← hA, ← hD] at hrel
+  rw [← hD] at hlen
+  set D := e.delivered e.init ins with hDdef
+  set C := chunks r (e.accepted e.init ins) with hCdef
+  have hW : (D[m]).data.lanes.length = r := hlen _ (List.getElem_mem hm)
+  -- the m-th specified word is the view of the m-th delivered word
+  have hget : (C.map (wordOf 0))[m]? = some (upView D[m]) := by
+    rw [hrel, List.getElem?_append_left (by simpa using hm)]
+    simp [hm]
+  rw [List.getElem?_map] at hget
+  obtain ⟨c, hc, hw⟩ := Option.map_eq_some_iff.mp hget
+  refine ⟨c, hc, hw, ?_, ?_⟩
+  · have hp := (encStrideUp_fields r pw rev ws (D[m]).data hW 0 hr).2
+    rw [hp]
+    have : (upView D[m]).data.2 = (D[m]).data.param := rfl
+    rw [← this, ← hw]
+    rfl
+  · intro i hi
+    have hdata : c.map (·.data.1) = (D[m]).data.lanes.take (D[m]).data.count := by
+      have := congrArg (fun t => t.data.1) hw
+      simpa [wordOf, upView] using this
+    have hcl : c.length ≤ r := by
+      have := congrArg List.length hdata
+      simp only [List.length_map, List.length_take] at this
+      omega
+    have hf := (encStrideUp_fields r pw rev ws (D[m]).data hW i (by omega)).1
+    rw [hf]
+    have hlane : (D[m]).data.lanes.getD i 0 = c[i].data.1 := by
+      have h1 : (c.map (·.data.1))[i]? = some (c[i].data.1) := by simp [hi]
+      rw [hdata, List.getElem?_take] at h1
+      split at h1
+      · simp [List.getD_eq_getElem?_getD, h1]
+      · simp at h1
+    rw [hlane]
+
+/-! ### Cast with reverse_from / reverse_to is a bit permutation -/
+
+/-- `cast(b→a) ∘ cast(a→b) = id` on the `Σw` bits: the inverse of `Cast(a, b, reverse_from, reverse_to)` is
+    `Cast(b, a, reverse_from := reverse_to, reverse_to := reverse_from)`, for all field-width lists of equal total
+    width and all four flag combinations. -/
+theorem cast_inverse (rf rt : Bool) (wsFrom wsTo : List Nat) (hw : sumW wsFrom = sumW wsTo) (x : Nat) :
+    castFn rt rf wsTo wsFrom (castFn rf rt wsFrom wsTo x) = x % 2 ^ sumW wsFrom :=
+  castFn_inverse rf rt wsFrom wsTo hw x
+
+/-- Hence every cast is a bijection of `[0, 2^Σw)`: no two sink words give the same source word, and every
+    source word is produced. -/
+theorem cast_bijective (rf rt : Bool) (wsFrom wsTo : List Nat) (hw : sumW wsFrom = sumW wsTo) :
+    (∀ x y, x < 2 ^ sumW wsFrom → y < 2 ^ sumW wsFrom →
+      castFn rf rt wsFrom wsTo x = castFn rf rt wsFrom wsTo y → x = y) ∧
+    (∀ y, y < 2 ^ sumW wsTo → ∃ x, x < 2 ^ sumW wsFrom ∧ castFn rf rt wsFrom wsTo x = y) := by
+  constructor
+  · intro x y hx hy h
+    have h1 := castFn_inverse rf rt wsFrom wsTo hw x
+    have h2 := castFn_inverse rf rt wsFrom wsTo hw y
+    rw [h, h2, Nat.mod_eq_of_lt hy, Nat.mod_eq_of_lt hx] at h1
+    exact h1.symm
+  · intro y hy
+    refine ⟨castFn rt rf wsTo wsFrom y, castFn_lt rt rf wsTo wsFrom y, ?_⟩
+    rw [castFn_inverse rt rf wsTo wsFrom hw.symm y, Nat.mod_eq_of_lt hy]
+
+/-! ### PipelinedActor of any latency, Crossbar -/
+
+/-- `PipelinedActor(latency = L)` for every `L` (`L = 0` combinational), every schedule: accepted = delivered ++
+    the tokens in the valid stages (oldest first), never more than `L` of them; first/last travel with their token.
+    This is the control path every `PipelinedActor` subclass shares (Shifter, the 8b/10b stream wrappers). -/
+theorem pipelinedActor_token_rel (L : Nat) (z : Tok α) (ins : List (In α)) :
+    let e := pipeActor L z
+    e.accepted e.init ins = e.delivered e.init ins ++ paInflight (e.runFrom e.init ins) ∧
+    (paInflight (e.runFrom e.init ins)).length ≤ L := by
+  have h := rel_run_init (pipeActor L z) (paRel L)
+    ⟨by simp [pipeActor], by simp [pipeActor, paInflight, List.filter_replicate]⟩ (pipeActor_step L z) ins
+  refine ⟨h.2, ?_⟩
+  have := paInflight_length_le ((pipeActor L z).runFrom (pipeActor L z).init ins)
+  rw [h.1] at this
+  exact this
+
+/-- `Crossbar(n)` wired as its name says (its Demultiplexer's source `k` to its Multiplexer's sink `k`), the two
+    selectors changing freely: the composition of the two models delivers exactly what it accepts, unchanged and in
+    order, and accepts only while both selectors name the same existing port (otherwise it is blocked, nothing is
+    dropped). -/
+theorem crossbar_token_rel (n : Nat) (z : α) (ins : List (In (α × Nat × Nat))) :
+    let e := crossbar n z
+    e.delivered () ins = (e.accepted () ins).map (mapTok (·.1)) ∧
+    ∀ t ∈ e.accepted () ins, t.data.2.1 = t.data.2.2 ∧ t.data.2.1 < n :=
+  rel_run_init (crossbar n z) (xbarRel n) ⟨rfl, by simp⟩ (crossbar_step n z) ins
+
 /-! ### Non-vacuity -/
 
 /-- Up-converter, ratio 3: four sub-words, the second with an early `last`; consumer stalls once.  Two words are
@@ -459,6 +604,32 @@ example :
 example :
     let i : DemuxIn Nat := ⟨3, true, ⟨7, false, false⟩, [true, true, true]⟩
     demuxAcc 3 zTok i = [] ∧ demuxDelAt 3 zTok 2 i = [] := by decide
+
+/-- PipelinedActor, latency 3: a token needs three enabled cycles; two accepted, the first just delivered. -/
+example :
+    let e := pipeActor (α := Nat) 3 ⟨0, false, false⟩
+    let ins : List (In Nat) :=
+      [⟨true, ⟨1, true, false⟩, true⟩, ⟨false, ⟨9, true, true⟩, true⟩, ⟨true, ⟨2, false, true⟩, true⟩,
+       ⟨false, ⟨0, false, false⟩, true⟩]
+    e.delivered e.init ins = [⟨1, true, false⟩] ∧ paInflight (e.runFrom e.init ins) = [⟨2, false, true⟩] := by decide
+
+/-- Crossbar(3): passes with both selectors at 2, blocked (not dropped) when they differ or name port 3. -/
+example :
+    let e := crossbar (α := Nat) 3 0
+    let ins : List (In (Nat × Nat × Nat)) :=
+      [⟨true, ⟨(7, 2, 2), true, false⟩, true⟩, ⟨true, ⟨(8, 1, 2), false, false⟩, true⟩,
+       ⟨true, ⟨(9, 3, 3), false, true⟩, true⟩]
+    e.delivered () ins = [⟨7, true, false⟩] ∧ (e.accepted () ins).length = 1 := by decide
+
+/-- `_DownConverter` ratio 3: the count output marks every third delivered token. -/
+example :
+    let e := downConvV (α := Nat) (π := Unit) 3 0
+    let i : In (List Nat × Unit) := ⟨true, ⟨([1, 2, 3], ()), true, true⟩, true⟩
+    (e.delivered e.init [i, i, i, i]).map (·.data.2) = [false, false, true, false] := by decide
+
+/-- Stride map, fields (1 bit, 2 bits), ratio 2: sub-words `0b101` (a=1,b=2) and `0b010` (a=0,b=1) give wide
+    fields a = 0b01, b = 0b0110, i.e. `0b011001`; and back. -/
+example : strideOut [1, 2] [0b101, 0b010] = 0b011001 ∧ strideIn 2 [1, 2] 0b011001 = [0b101, 0b010] := by decide
 
 /-- Cast with `reverse_from`: fields (1 bit, 2 bits) → (2 bits, 1 bit), the first source field gets the second
     sink field. -/
